@@ -6,7 +6,6 @@ import (
 	"encoding/hex"
 	"fmt"
 	"io"
-	"log"
 
 	"github.com/libsv/go-bk/crypto"
 
@@ -327,15 +326,38 @@ func (tx *Tx) BytesWithClearedInputs(index int, lockingScript []byte) []byte {
 
 // Clone returns a clone of the tx
 func (tx *Tx) Clone() *Tx {
-	// Ignore err as byte slice passed in is created from valid tx
-	clone, err := NewTxFromBytes(tx.Bytes())
-	if err != nil {
-		log.Fatal(err)
+	// A field by field deep copy: unlike a serialise / parse round trip it cannot fail,
+	// whatever state the tx is in (e.g. an input that has not been given a previous txid yet).
+	clone := &Tx{
+		Version:  tx.Version,
+		LockTime: tx.LockTime,
+		Inputs:   make([]*Input, len(tx.Inputs)),
+		Outputs:  make([]*Output, len(tx.Outputs)),
 	}
 
 	for i, input := range tx.Inputs {
-		clone.Inputs[i].PreviousTxSatoshis = input.PreviousTxSatoshis
-		clone.Inputs[i].PreviousTxScript = input.PreviousTxScript
+		in := &Input{
+			PreviousTxOutIndex: input.PreviousTxOutIndex,
+			SequenceNumber:     input.SequenceNumber,
+			PreviousTxSatoshis: input.PreviousTxSatoshis,
+			PreviousTxScript:   input.PreviousTxScript,
+			UnlockingScript:    &bscript.Script{},
+		}
+		if input.previousTxID != nil {
+			in.previousTxID = append([]byte{}, input.previousTxID...)
+		}
+		if input.UnlockingScript != nil {
+			*in.UnlockingScript = append(bscript.Script{}, *input.UnlockingScript...)
+		}
+		clone.Inputs[i] = in
+	}
+
+	for i, output := range tx.Outputs {
+		out := &Output{Satoshis: output.Satoshis, LockingScript: &bscript.Script{}}
+		if output.LockingScript != nil {
+			*out.LockingScript = append(bscript.Script{}, *output.LockingScript...)
+		}
+		clone.Outputs[i] = out
 	}
 
 	return clone
